@@ -218,14 +218,14 @@ struct Agg {
 fn default_runs(id: &str, thorough: bool) -> u64 {
     let q = match id {
         "C01" => 1600,
-        "C02" => 900,
-        "C03" => 1700,
+        "C02" => 600,
+        "C03" => 1400,
         "C04" => 500,
         "C05" => 1500,
-        "C06" => 700,
-        "C07" => 36,
-        "C08" => 48,
-        "C09" => 42,
+        "C06" => 550,
+        "C07" => 24,
+        "C08" => 40,
+        "C09" => 28,
         "C10" => 160,
         "C11" => 1150,
         "C12" => 230,
